@@ -407,7 +407,18 @@ fn case_alist(rep: &mut Report, rng: &mut Rng, cfg: &GenCfg, tb: &Tables) {
             0 => Entry::Other(gen::gen_atom(rng, cfg, tb)),
             1 => Entry::Other(Value::list(Vec::<Value>::new())),
             2 => Entry::Other(Value::vector(vec![Value::symbol("a"), Value::from(1)])),
-            3 => Entry::Pair(Value::from(rng.below(4) as u64), gen::gen_atom(rng, cfg, tb)),
+            3 => {
+                // keys that are NOT names but carry the text of a probed name
+                let name = *rng.pick(&names);
+                let key = match rng.below(5) {
+                    0 => Value::bytes(name.as_bytes().to_vec()),
+                    1 => Value::list(vec![Value::symbol(name)]),
+                    2 => Value::vector(vec![Value::string(name)]),
+                    3 => name.chars().next().map(Value::Char).unwrap_or(Value::Null),
+                    _ => Value::from(rng.below(4) as u64),
+                };
+                Entry::Pair(key, gen::gen_atom(rng, cfg, tb))
+            }
             4 => Entry::Pair(Value::list(vec![Value::symbol("a")]), gen::gen_atom(rng, cfg, tb)),
             _ => {
                 let name = *rng.pick(&names);
